@@ -104,6 +104,10 @@ def extra(ctx):
                           {"property": "C02", "kind": "runtime", "suite": "slowrun", "case": line.split(" ", 1)[1], "impl_output": r[:200]})
 
 
+    # ... and a limit longer than one second is a limit too
+    vcheck.long_time_limit(ctx, "C02")
+
+
 TECHNIQUE = "Coq proof that the run loop refines an independent accounting relation over single steps (soundness, fuel sufficiency, determinism, outcome characterisation for every clock) + differential correspondence of run() against the model and against manual step() accounting done by the harness"
 DESIGN_REF = "DESIGN.md section 6.C02"
 LEVEL_TEXT = ("Props/C02.v: for every program, state, registry whose instructions do not write the configuration, every clock and every limit: run's result is what the single-step accounting relation yields (C02_run_follows_accounting), the accounting is a function, the final state is iter_step j of the start state with j <= limit+1, "
